@@ -10,6 +10,7 @@ Three exhaustive families, all on the real simulated design:
      all-distinct data (order / loss / duplication with a counter payload).
 """
 import itertools
+import re
 import time
 
 from ..core.pool import pmap, rotate
@@ -555,8 +556,8 @@ def w_construct(task):
     """family B (+C when patterns given) for one (cls, depth, exact)."""
     cls, depth, exact, width, patterns, policies = task
     from amaranth.lib import fifo as F
-    out = {"cov": {"constructions": 1, "constructed": 0, "rejected": 0, "schedule_runs": 0, "schedule_events": 0,
-                   "schedule_entries": 0}, "samples": [], "violations": []}
+    out = {"key": (cls, depth, exact), "cov": {"constructions": 1, "constructed": 0, "rejected": 0, "schedule_runs": 0,
+                                                "schedule_events": 0, "schedule_entries": 0}, "samples": [], "violations": []}
     want = doc_depth(cls, depth, exact)
     tag = f"{cls}(depth={depth},exact_depth={exact})"
     payload = {"kind": "construct", "cls": cls, "depth": depth, "exact": exact, "width": width}
@@ -595,10 +596,13 @@ def w_construct(task):
             if eff and stats["max_held"] == eff:
                 out["cov"]["schedule_runs_reaching_full"] = out["cov"].get("schedule_runs_reaching_full", 0) + 1
             if errs:
-                ps = "".join(MASK_NAME[x][0] if x != B else "B" for x in pat)
-                out["violations"].append({"sig": f"{tag}:schedule={ps}:{pol}:{errs[0].split(':', 1)[-1].strip()[:40]}",
-                                          "what": f"{tag} width={width} periodic schedule {ps} policy {pol}: {errs}",
+                ps = "".join("B" if x == B else MASK_NAME[x] for x in pat)
+                kind = re.sub(r"[0-9]+", "N", errs[0].split(":", 1)[-1].strip())[:48]
+                out["violations"].append({"sig": f"{tag}:schedule:{kind}",
+                                          "what": f"{tag} width={width}, periodic clock schedule {ps}, read policy {pol}: {errs} "
+                                                  "(first failing schedule of this configuration; the others are not run)",
                                           "payload": dict(payload, kind="schedule", pattern=list(pat), policy=pol, n_items=n_items)})
+                return out
     return out
 
 
@@ -635,13 +639,13 @@ def run(rep):
     results = []
     stasks = rotate([(c, replay_n, 1, True) for c in small], rep.seed)
     mixed = [("bfs", t) for t in stasks] + [("con", t) for t in rotate(ctasks, rep.seed)]
+    cparts = []
     for kind, r in pmap(_dispatch, mixed, rep.procs):
-        if kind == "bfs":
-            results.append(r)
-        else:
-            rep.merge(r)
+        (results if kind == "bfs" else cparts).append(r)
     for c in big:
         results.append(run_config((c, replay_n, rep.procs, True)))
+    order = {c: i for i, c in enumerate(small + big)}
+    results.sort(key=lambda r: order[(r["cfg"]["cls"], r["cfg"]["depth"], r["cfg"]["width"], r["cfg"]["alphabet"])])
     allflags, Ks, alph, indep_cex = set(), {}, {}, []
     for r in results:
         tag, d = r["tag"], r["cfg"]
@@ -681,6 +685,8 @@ def run(rep):
         rep.sample({"config": tag, "alphabet": alph[tag], "states": r["states"], "transitions": r["transitions"], "bfs_depth": r["depth"],
                     "liveness_K_read_edges": live["K"] if live else None, "cdc_multibit_registers": r.get("ncross"),
                     "state_registers": r.get("nregs"), "inputs_in_cone": r.get("cones"), "wall_s": r["wall"]}, limit=40)
+    for part in sorted(cparts, key=lambda p: (p["key"][1], p["key"][0], p["key"][2])):
+        rep.merge({k: v for k, v in part.items() if k != "key"})
     explored = [r for r in results if not r["elab"]]
     reduced_used = any(r["cfg"]["alphabet"] == "reduced" for r in explored)
     rep.setcov("liveness_K_by_config", Ks)
@@ -745,4 +751,4 @@ def replay(payload):
         if entries and not r_rdy and nr >= LIVENESS_LIMIT and nw >= LIVENESS_LIMIT:
             return [f"after {nr} read-clock and {nw} write-clock edges without a write: {len(entries)} unread entries, r_rdy=0"]
         return []
-    return [f"event {i}: {e}" for i, e in errs]
+    return [f"at action {spec.actions[i]}: {e}" for i, e in errs]
